@@ -196,7 +196,7 @@ pub fn operation(p: &mut Parser<'_>, mut skip: Skip) -> Result<Option<Skip>> {
     loop {
         let is_unit = stack.last().map(|e| e.2).unwrap_or_default();
 
-        let cur = match operand(p, skip, is_unit)? {
+        let mut cur = match operand(p, skip, is_unit)? {
             Some(c) => c,
             None => return Ok(None),
         };
@@ -216,8 +216,17 @@ pub fn operation(p: &mut Parser<'_>, mut skip: Skip) -> Result<Option<Skip>> {
         while let Some(prev) = stack.last_mut() {
             match priority.cmp(&prev.1) {
                 Ordering::Less => {
-                    p.close_at(&prev.0, OPERATION)?;
-                    *prev = (prev.0.clone(), priority, extra);
+                    // The tighter operation ends here and becomes the left
+                    // operand of whatever encloses it.
+                    cur = prev.0.clone();
+                    p.close_at(&cur, OPERATION)?;
+                    stack.pop();
+
+                    if stack.is_empty() {
+                        stack.push((cur, priority, extra));
+                        break;
+                    }
+
                     continue;
                 }
                 Ordering::Greater => {
